@@ -473,8 +473,9 @@ func (s *TxStore) removeConflict(tx mwdb.DBTransaction, rec *TxRecord) error {
 
 	// If this tx spends any previous credits (either mined or unmined), set
 	// each unspent.  Mined transactions are only marked spent by having the
-	// output in the unmined inputs bucket.
-	if err := s.utxoStore.deleteUnminedInputs(tx, rec); err != nil {
+	// output in the unmined inputs bucket. Another unmined transaction may
+	// spend the same output: its mark stays.
+	if err := s.utxoStore.removeUnminedInputsOf(tx, rec); err != nil {
 		return err
 	}
 	if err := s.utxoStore.removeUnminedGameHistory(tx, rec); err != nil {
